@@ -8,7 +8,7 @@ CONSTANTS
   MaxUpdates = 3
   MaxRestarts = 2
   CapKeeps = {1, 2}
-  UpdKeys = 4
+  UpdKeys = 3
   AutoCap = 0
   FixJournalStale = TRUE
   FixDiskRoot = TRUE
